@@ -11,6 +11,7 @@ of those places in the Go source breaks this file.
 import XlModel.Lemmas.AdjustGrid
 import XlModel.Lemmas.AdjustCols
 import XlModel.Lemmas.AdjustObjs
+import XlModel.Lemmas.AdjustObjsDel
 
 namespace XlModel.Props.C06
 open XlModel XlModel.Adjust
@@ -1190,5 +1191,127 @@ theorem insert_cols_objects_refine (s s' : Sheet) (hw : WF s.rows) (ho : ObjWF s
     have := (Prod.mk.inj h).2
     subst this
     exact ⟨rfl, rfl, rfl, rfl, rfl, rfl⟩
+
+/-! ## Removals are never rejected half-way -/
+
+/-- well-formed range objects whose sqref ranges have their corners in order -/
+def ObjWFSorted (s : Sheet) : Prop :=
+  RangeWF s ∧ ∀ it ∈ s.cfs ++ s.dvs, ∀ q ∈ it.rects, RectValid q
+
+/-- on a dense worksheet with well-formed range objects `RemoveRow(row)` with `row ≥ 1` is always accepted -/
+theorem remove_row_accepted (s : Sheet) (hw : WF s.rows) (ho : ObjWFSorted s) (row : Int) (hrow : 1 ≤ row) :
+    (removeRow s row).1 = .ok := by
+  unfold removeRow removeRowG
+  have g1 : ¬ row < 1 := by omega
+  simp only [g1, if_false]
+  have key : ∀ s0 : Sheet, s0.rows = s.rows.filter (fun r => r.r != row) → s0.cfs = s.cfs → s0.dvs = s.dvs →
+      s0.merges = s.merges → s0.filter = s.filter → s0.tables = s.tables →
+      (adjustHelperG false s0 .rows row (-1)).1 = .ok := by
+    intro s0 hs0 e1 e2 e3 e4 e5
+    obtain ⟨out, hout, hslots⟩ := rows_del_slots s.rows hw.rowsDense row hrow
+    obtain ⟨hwf, _⟩ := rows_del_view s.rows hw row hrow out hslots
+    have hd : adjustRowDimensions s0.rows row (-1) = some (s0.rows.map (shiftRow row (-1))) := by
+      unfold adjustRowDimensions
+      cases hl : s0.rows.getLast? with
+      | none =>
+        have : s0.rows = [] := by simpa using hl
+        simp [this]
+      | some last =>
+        have hm := hw.rowsLe
+        have hlast : last ∈ s.rows := by
+          have : last ∈ s0.rows := List.mem_of_getLast? hl
+          rw [hs0] at this
+          exact (List.mem_filter.mp this).1
+        have := hw.rowsDense.le_length Row.r last hlast
+        have hc : ¬ (last.r ≥ row ∧ last.r + -1 > 0 ∧ last.r + -1 > maxRows) := by omega
+        simp only [hc, if_false]
+    have hdims : adjustDims s0 .rows row (-1) = some { s0 with rows := s0.rows.map (shiftRow row (-1)) } := by
+      unfold adjustDims; simp [hd]
+    have hfw := adjustHelper_forward s0 _ .rows row (-1) out out
+      (by simp [rangeLimitHit_neg s0 .rows row (-1) (by omega)]) hdims
+      (by simpa [hs0] using hout) (checkRow_id hwf)
+    unfold adjustHelper at hfw
+    rw [hfw]
+    apply runAdjusters_del_ok _ .rows row hrow
+    · exact ⟨by simpa [e1, e2] using ho.1.sq, by simpa [e3] using ho.1.merges, by simpa [e4] using ho.1.filter,
+        by simpa [e5] using ho.1.tables⟩
+    · simpa [e1, e2] using ho.2
+  by_cases g2 : row > (s.rows.length : Int)
+  · simp only [g2, if_true]
+    exact key s (filter_beyond s.rows hw.rowsDense row g2).symm rfl rfl rfl rfl rfl
+  · simp only [g2, if_false]
+    exact key _ rfl rfl rfl rfl rfl rfl
+
+/-- clause "a rejected edit changes nothing", `RemoveRow`: the only rejection is the argument check -/
+theorem rejected_noop_remove_row (s s' : Sheet) (hw : WF s.rows) (ho : ObjWFSorted s) (row : Int) (st : Status)
+    (h : removeRow s row = (st, s')) (hst : st ≠ .ok) : s' = s := by
+  by_cases g1 : row < 1
+  · unfold removeRow removeRowG at h
+    simp [g1] at h; exact h.2.symm
+  · have := remove_row_accepted s hw ho row (by omega)
+    rw [h] at this
+    exact absurd this hst
+
+
+/-- … and `RemoveCol` with a valid column name (`num ≥ 1`) is always accepted -/
+theorem remove_col_accepted (s : Sheet) (hw : WF s.rows) (ho : ObjWFSorted s) (col : List Char) (num : Int)
+    (hnum : Ref.columnNameToNumber col = .ok num) (h1 : 1 ≤ num) : (removeCol s col).1 = .ok := by
+  unfold removeCol removeColG
+  simp only [hnum]
+  let e : Row → Row := fun r => { r with cells := eraseFirst (fun x : Cell => x.c == num) r.cells }
+  have he : (s.rows.map fun r : Row => { r with
+      cells := (eraseFirst (fun x => Facts.C06.removeColMatch (Ref.numToName x.c.toNat) x.c col num) r.cells) }) =
+      s.rows.map e := rfl
+  rw [he]
+  let s0 : Sheet := { s with rows := s.rows.map e }
+  have hhit : (Facts.C06.rangeCheckFirst && rangeLimitHit s0 .cols num (-1)) = false := by
+    simp [rangeLimitHit_neg s0 .cols num (-1) (by omega)]
+  have hl' : colLimitHit s0.rows num (-1) = false := by
+    unfold colLimitHit
+    rw [List.any_eq_false]
+    intro r hr
+    simp only [Bool.not_eq_true]
+    rw [List.any_eq_false]
+    intro x hx
+    obtain ⟨r0, hr0, rfl⟩ := List.mem_map.mp hr
+    have hx0 := eraseFirst_subset _ _ x hx
+    have a := (hw.cellsDense r0 hr0).le_length Cell.c x hx0
+    have b := hw.colsLe r0 hr0
+    simp only [decide_eq_true_eq]
+    omega
+  let g : Row → Row := fun r =>
+    { r with cells := (eraseFirst (fun x : Cell => x.c == num) r.cells).map (shiftCell num (-1)) }
+  have hmm : (s0.rows.map fun r => { r with cells := r.cells.map (shiftCell num (-1)) }) = s.rows.map g := by
+    simp [s0, e, g, List.map_map, Function.comp_def]
+  have hdims : adjustDims s0 .cols num (-1) =
+      some { s0 with rows := s.rows.map g, cols := adjustCols s0.cols num (-1) } := by
+    unfold adjustDims; simp only [hl', Bool.false_eq_true, if_false, hmm]
+  have hdense : DenseK Row.r (s.rows.map g) := by
+    intro i y hy
+    rw [List.getElem?_map] at hy
+    obtain ⟨x, hx, rfl⟩ := Option.map_eq_some_iff.mp hy
+    exact hw.rowsDense i x hx
+  obtain ⟨outs, hcr, _⟩ := checkRowAux_lift g s.rows 0 (fun k r hr =>
+    ⟨_, (cells_del_slots (0 + k) r.cells (by simpa using hw.cellsOk k r hr) num h1).1⟩)
+  have hfw := adjustHelper_forward s0 _ .cols num (-1) (s.rows.map g) outs hhit hdims
+    (checkSheet_id _ hdense) hcr
+  unfold adjustHelper at hfw
+  show (adjustHelperG false s0 .cols num (-1)).1 = .ok
+  rw [hfw]
+  exact runAdjusters_del_ok _ .cols num h1 ⟨ho.1.sq, ho.1.merges, ho.1.filter, ho.1.tables⟩ ho.2
+
+/-- clause "a rejected edit changes nothing", `RemoveCol`: the only rejection is an invalid column name -/
+theorem rejected_noop_remove_col (s s' : Sheet) (hw : WF s.rows) (ho : ObjWFSorted s) (col : List Char) (st : Status)
+    (hpos : ∀ num, Ref.columnNameToNumber col = .ok num → 1 ≤ num)
+    (h : removeCol s col = (st, s')) (hst : st ≠ .ok) : s' = s := by
+  cases hn : Ref.columnNameToNumber col with
+  | error e =>
+    unfold removeCol removeColG at h
+    simp only [hn] at h
+    exact (Prod.mk.inj h).2.symm
+  | ok num =>
+    have := remove_col_accepted s hw ho col num hn (hpos num hn)
+    rw [h] at this
+    exact absurd this hst
 
 end XlModel.Props.C06
